@@ -196,3 +196,9 @@ def build(sess):
                         'meet/slice, mixed case) with symbolic real viewBox and page sizes; each of the four returned numbers is '
                         'proved equal to the SVG rule on both aspect-ratio orderings (including the equal-aspect boundary); every '
                         'malformed-input class returns the identity transform without raising.')
+
+
+def fallback(sess):
+    r = native('n_c11', 'search', {})
+    r['what'] = 'n_c11.search'
+    return [r]
